@@ -777,15 +777,29 @@ L1X_ALPHABET = [(k, b) for k in ("content", "changes", "normalize", "content_dry
     ("content_same", "stale"), ("resend", "none")]
 
 
-def l1x_count(maxlen: int) -> int:
-    return sum(len(L1X_ALPHABET) ** n for n in range(1, maxlen + 1))
+# the alphabet the property's quantifier names (4 call kinds x 4 base_hash kinds + external modification to a valid / an empty
+# file) is a prefix of the extended one: thorough sweeps the extended alphabet to length 4 and the quantifier's own to length 5
+L1X_BASE = 18
+assert L1X_ALPHABET[L1X_BASE - 1] == ("ext_empty", "none")
 
 
-def l1x_history(index: int) -> dict:
+def l1x_count(maxlen: int, a: int | None = None) -> int:
+    a = a or len(L1X_ALPHABET)
+    return sum(a ** n for n in range(1, maxlen + 1))
+
+
+def l1x_plan(tier: str) -> list:
+    """[(alphabet size, first index, end index)] in the index space of that alphabet size."""
+    if tier == "quick":
+        return [(len(L1X_ALPHABET), 0, l1x_count(3))]
+    return [(len(L1X_ALPHABET), 0, l1x_count(4)), (L1X_BASE, l1x_count(4, L1X_BASE), l1x_count(5, L1X_BASE))]
+
+
+def l1x_history(index: int, a: int | None = None) -> dict:
     """The index-th history in length-then-lexicographic order over L1X_ALPHABET (all histories up to length 5 of
     {content, changes, normalize, corrections_only, external modification} x base_hash in {none, current, stale, future})."""
     n = 1
-    a = len(L1X_ALPHABET)
+    a = a or len(L1X_ALPHABET)
     while index >= a ** n:
         index -= a ** n
         n += 1
@@ -1060,11 +1074,10 @@ def units(tier: str, vseed: int) -> list:
     out = []
     for (i, j) in l2x_pairs():
         out.append({"layer": "L2x", "i": i, "j": j, "start": 0, "count": 1})
-    l1max = 3 if tier == "quick" else 5
-    total = l1x_count(l1max)
     step = 400 if tier == "quick" else 4000
-    for lo in range(0, total, step):
-        out.append({"layer": "L1x", "lo": lo, "hi": min(lo + step, total), "start": lo, "count": step, "maxlen": l1max})
+    for a_, first, end in l1x_plan(tier):
+        for lo in range(first, end, step):
+            out.append({"layer": "L1x", "lo": lo, "hi": min(lo + step, end), "start": lo, "count": step, "alpha": a_})
     for layer, n, per in plan:
         for i in range(n):
             out.append({"layer": layer, "start": i * per, "count": per, "vseed": vseed, "tier": tier})
@@ -1089,7 +1102,7 @@ def run_unit(unit: dict):
         return stats, viols
     if unit["layer"] == "L1x":
         for idx in range(unit["lo"], unit["hi"]):
-            case = l1x_history(idx)
+            case = l1x_history(idx, unit.get("alpha"))
             res = run_case(case, stats)
             stats.inc("l1x_histories")
             for v in res["violations"]:
@@ -1235,9 +1248,12 @@ def main(tier: str, seed: int, args) -> int:
         "l1_histories": c.get("l1_histories", 0), "l1_steps": c.get("l1_steps_total", 0),
         "l1_distinct_history_shapes": len(stats.sets.get("l1_history_shapes", ())),
         "l1_step_results": dict(sorted(stats.groups.get("l1_steps", {}).items())),
-        "l1x_exhaustive_histories": {"alphabet": [f"{k}/{b}" for k, b in L1X_ALPHABET], "max_length": 3 if tier == "quick" else 5,
-                                     "histories": c.get("l1x_histories", 0), "total_in_space": l1x_count(3 if tier == "quick" else 5),
-                                     "complete": c.get("l1x_histories", 0) == l1x_count(3 if tier == "quick" else 5)},
+        "l1x_exhaustive_histories": {"alphabet": [f"{k}/{b}" for k, b in L1X_ALPHABET],
+                                     "quantifier_alphabet": [f"{k}/{b}" for k, b in L1X_ALPHABET[:L1X_BASE]],
+                                     "swept": [{"alphabet_size": a_, "history_lengths": "1..3" if tier == "quick" else ("1..4" if a_ != L1X_BASE else "5"),
+                                                "histories_in_space": end - first} for a_, first, end in l1x_plan(tier)],
+                                     "histories": c.get("l1x_histories", 0), "total_in_space": sum(e - f for _, f, e in l1x_plan(tier)),
+                                     "complete": c.get("l1x_histories", 0) == sum(e - f for _, f, e in l1x_plan(tier))},
         "l2x_exhaustive_two_writer_interleavings": {
             "switch_points": "before each open-for-read of the target, each flock operation and each replace onto the target",
             "writer_kinds": 9, "pairs": len(l2x_pairs()), "pairs_exhausted": c.get("l2x_pairs_exhausted", 0),
